@@ -170,6 +170,7 @@ fn generate_inner(seed_i: u64, prop: u32, step_scale: usize) -> Result<Generated
         "S1-corpus" => "start.S1-corpus",
         "S2-random-placement" => "start.S2-random-placement",
         "S3-enpassant-line" => "start.S3-enpassant-line",
+        "S5-single-special-move" => "start.S5-single-special-move",
         _ => "start.S4-playout",
     });
     if overlay != "none" {
